@@ -78,6 +78,10 @@ def verus_engine(prop, tier, scratch):
             if name in skip and props:
                 affected.update(props)
         if prop in affected or prop == 'C01':
+            ue = Undecided('function(s) %s left the verifiable subset on this tree (%s)' % (sorted(n for n in skip if not n.startswith('!')), '; '.join('%s: %s' % kv for kv in sorted(isolated.items()))[:400]))
+            ue.probe_names = set(n for n in skip if not n.startswith('!'))
+            ue.probe_skip = set()
+            raise ue
             raise Undecided('function(s) %s left the verifiable subset on this tree (%s)' % (sorted(n for n in skip if not n.startswith('!')), '; '.join('%s: %s' % kv for kv in sorted(isolated.items()))[:400]))
     lost = info.get('lost_fns') or {}
     if lost:
@@ -85,7 +89,10 @@ def verus_engine(prop, tier, scratch):
         for name, d in lost.items():
             affected.update(d.get('props') or [])
         if prop in affected or prop == 'C01':
-            raise Undecided('contract anchor lost on this tree: %s' % '; '.join('%s (%s)' % (n, d['reason']) for n, d in sorted(lost.items()))[:500])
+            ue = Undecided('contract anchor lost on this tree: %s' % '; '.join('%s (%s)' % (n, d['reason']) for n, d in sorted(lost.items()))[:500])
+            ue.probe_names = set(n for n, d in lost.items() if not d.get('missing') and not n.startswith('<'))
+            ue.probe_skip = set(skip)
+            raise ue
     fntab = cl.fn_table(text)
     led = cl.ledger_from(vj, 'evx_unit')
     # ---- obligations of this property: every contracted fn tagged with it (C01: every verified exec fn)
@@ -192,12 +199,75 @@ def canary(prop, scratch, names):
             'vacuous': vacuous, 'wall': r['wall']}
 
 
+def panic_probe(prop, scratch, names, skip, seed):
+    """C01 only.  A function whose proof text could not be attached on this tree (lost anchor, left the subset) is verified
+    once more with its contract only.  A failed panic-freedom obligation in it (index, slice, unwrap, overflow,
+    unreachable) is then looked up in the replay pools: if an input makes the working tree panic where the committed
+    tree does not, the obligation is reported as violated with that input -- a replayed panic is conclusive for C01.
+    Without such an input the property stays UNDECIDED on this tree."""
+    import witness
+    try:
+        text, info = build_unit.build(cl.REPO, skip=frozenset(skip) - set(names) - set('!' + n for n in names), bare=frozenset(names))
+    except Lost:
+        return []
+    unit = os.path.join(scratch, 'evx_probe.rs')
+    open(unit, 'w').write(text)
+    fntab = cl.fn_table(text, keep_external=True)
+    r = cl.run_verus(unit, rlimit=20)
+    if r['json'] is None or r['json'].get('verification-results', {}).get('encountered-vir-error'):
+        return []
+    out = []
+    seen = set()
+    for d in r['diags']:
+        c = cl.classify_diag(d, fntab)
+        if not c or not c['fn'] or c['fn'][1] not in names:
+            continue
+        # any failed precondition of a callee (std or assumed-std specification) or arithmetic / unreachable obligation;
+        # what decides is the replayed panic below
+        if c['kind'] not in ('safety', 'pre'):
+            continue
+        f = {'obligation': 'verus:%s::%s#%s' % (c['fn'][0], c['fn'][1], c['kind']), 'engine': 'verus', 'kind': c['kind'],
+             'message': c['msg'] + ' (contract-only probe of a function whose proof text was lost on this tree)', 'clause': c['clause'], 'line': c['line'], 'labels': c['labels']}
+        if f['obligation'] in seen:
+            continue
+        seen.add(f['obligation'])
+        w = witness.search(prop, f, scratch, seed, panic_only=True)
+        if w:
+            f['witness'] = w
+            f['verifier_output'] = r['stderr'][-4000:]
+            out.append(f)
+    return out
+
+
 def run_property(prop, tier, seed, scratch, update_baseline=False):
     import kani_engine
     import findings
     import replay as rp
     t0 = time.time()
-    v = verus_engine(prop, tier, scratch)
+    try:
+        v = verus_engine(prop, tier, scratch)
+    except Undecided as ue:
+        names = getattr(ue, 'probe_names', None)
+        if prop != 'C01' or not names or update_baseline:
+            raise
+        pf = panic_probe(prop, scratch, names, getattr(ue, 'probe_skip', set()), seed)
+        if not pf:
+            raise
+        kf = findings.load()
+        violations, known_lines = [], []
+        for f in pf:
+            hit = findings.match(kf, prop, f, f['witness'])
+            if hit:
+                known_lines.append('KNOWN-FINDING: property=%s %s' % (prop, hit))
+                continue
+            path = rp.write_replay(prop, f, f['witness'], f.get('verifier_output', ''))
+            violations.append({'replay': path, 'has_input': True, 'obligation': f['obligation']})
+        obl = [{'name': f['obligation'].split('#')[0], 'expected': 1, 'ok': False, 'time_ms': 0, 'rlimit': None, 'backend': 'z3 via verus',
+                'contract': '(panic-freedom obligations of the body, contract-only probe)'} for f in pf]
+        return {'obligations': len(obl), 'discharged': 0, 'obligation_list': obl, 'violations': violations, 'known_lines': known_lines,
+                'trusted': ['contract-only probe: ' + str(ue)], 'cmds': ['verus evx_probe.rs --crate-type=lib (contract-only probe)'],
+                'canary': {'canaries': 0, 'failed_as_required': 0, 'vacuous': []}, 'rewrites': {}, 'injected_rewrites': [], 'bounded': [], 'fails': pf,
+                'verus_wall': 0, 'kani_wall': 0, 'not_decided_dyn': ['everything except the probed function(s): ' + str(ue)[:300]]}
     names = [tuple(o['name'][6:].rsplit('::', 1)) for o in v['obligations']]
     can = canary(prop, scratch, names)
     if can['vacuous']:
